@@ -751,10 +751,24 @@ class Saver:
 
                 for chunk in chunks:
                     new_f = self.save(chunk=chunk, chunk_i=chunk_i, executor=executor)
-                    pending = [f for f in pending if not f.done()]
+                    still_pending = []
+                    for f in pending:
+                        if f.done():
+                            # Re-raise the exception of a failed write, if any
+                            f.result()
+                        else:
+                            still_pending.append(f)
+                    pending = still_pending
                     if new_f is not None:
                         pending += [new_f]
                     chunk_i += 1
+
+            # All chunks are submitted: make sure the remaining writes
+            # succeeded before the data is marked as complete
+            if pending:
+                done, _ = wait(pending, timeout=self.timeout)
+                for f in done:
+                    f.result()
 
         except strax.MailboxKilled:
             # Write exception (with close), but exit gracefully.
